@@ -40,6 +40,10 @@ VARIANTS = {
             "        _beartype_conf_args_to_conf[conf_args] = self\n        # Return this configuration.\n        return self")),
         'C17.R5', 'store moved out of the critical section'),
     # --- neutral: behaviour-preserving edits must stay silent ---------------------------
+    'singleton-table-becomes-an-lru-cache': seeded(CM, "_beartype_conf_args_to_conf: dict[tuple, BeartypeConf] = {}",
+        "_beartype_conf_args_to_conf: dict[tuple, BeartypeConf] = CacheLruStrong(size=256)", 'C17.R9', 'seeded C17-22'),
+    'is-color-validated-by-value': seeded(CT, "not isinstance(conf_kwargs['is_color'], NoneTypeOr[bool])",
+        "conf_kwargs['is_color'] not in (True, False, None)", 'C17.R1', 'seeded C17-23'),
     'n-rename-key-var': Variant('neutral', [CM], sub(CM, r'\bconf_args\b', 'conf_key', regex=True, count=0) if False else
                                 (lambda files: {CM: __import__('re').sub(r'\bconf_args\b', 'conf_key', files[CM])}),
                                 None, 'local variable renamed'),
